@@ -134,6 +134,14 @@ func C10_Events() {
 	for _, s := range wd.n.comm.Out {
 		lg.hook(s)
 	}
+	if env.ParamOr("sendfail", 0) == 2 {
+		// the transport may report an error for any NEW_VIEW broadcast (after part of the recipients got it),
+		// also for the one the prefix makes the node send
+		wd.n.comm.Fail = func(s *stub.Sent) bool {
+			_, isNV := s.Msg.(*interfaces.NewViewMessage)
+			return isNV && env.NondetBool("send_error")
+		}
+	}
 	wd.prefix(env.Param("prefix"))
 	lg.check()
 	n := wd.n
